@@ -103,6 +103,17 @@ CHECKS.update({
               "sizes are judged in the core traces (C10_OutSize)."),
         design_ref="§4 C10", note="A genuine defect (SetMtu accepting values it cannot honour) was repaired; see known_findings.json.",
         technique="TLA+ length arithmetic + TLC; wire-length monitor via TLC trace validation"),
+    "C13": dict(
+        category="model_checking",
+        text=("SessionWait.tla follows the wait loops of Read/WriteBuffers label by label (timer object, the select's timeout channel c, one-slot "
+              "token, die, socket error) with time advancing only at quiescence; TLC checks NoEarlyTimeout, ArmedForDeadline, NothingStranded, "
+              "CloseWakesAll, ErrorWakesAll for 1-3 callers over all deadline scripts. The 'pinned' variant (the code before the repair) is "
+              "kept: TLC must still find the repaired defects in it. TLC-generated scripts run on real dialled and accepted sessions in "
+              "virtual time; what each call returned and at which virtual second is judged by the WaitObs monitors and must be explainable by "
+              "SessionWait (WaitTrace, nondeterministic token hand-off left to TLC). Accept and after-Close clauses are scripted API cases. "
+              "Two listed known findings (deadline change with concurrent callers; Accept deadline changed while blocked)."),
+        design_ref="§4 C13, §3.6", note="Trusted: synctest's virtual clock and synctest.Wait as the quiescence detector.",
+        technique="TLA+ model of the wait loops + TLC; TLC-generated scripts on real sessions; trace validation with silent steps"),
     "C15": dict(
         category="model_checking",
         text=("Lifecycle.tla models the goroutines/callbacks started per session and listener and what ends each; TLC checks under weak fairness "
